@@ -57,7 +57,14 @@ def _zip_longest(*a):
 
 
 def _next(seq, *default):
-    # generators are folded to lists; next() consumes the head
+    # generators handed over as lists: next() consumes the head
+    if isinstance(seq, LazyGen):
+        try:
+            return next(seq)
+        except StopIteration:
+            if default:
+                return default[0]
+            raise _Raise("StopIteration")
     if not isinstance(seq, list):
         raise _Unknown("next() of a non-sequence witness")
     if seq:
@@ -67,7 +74,12 @@ def _next(seq, *default):
     raise _Raise("StopIteration")
 
 
-_PURE_BUILTINS = {"tee": lambda x, n=2: tuple(list(x) for _ in range(n)), "zip_longest": _zip_longest, "next": _next, "enumerate": lambda *a: list(enumerate(*a)), "zip": lambda *a: list(zip(*a)), "range": lambda *a: list(range(*a)), "sorted": sorted, "reversed": lambda x: list(reversed(x)),
+def _tee(x, n=2):
+    items = list(x)
+    return tuple(list(items) for _ in range(n))
+
+
+_PURE_BUILTINS = {"tee": _tee, "zip_longest": _zip_longest, "next": _next, "enumerate": lambda *a: list(enumerate(*a)), "zip": lambda *a: list(zip(*a)), "range": lambda *a: list(range(*a)), "sorted": sorted, "reversed": lambda x: list(reversed(x)),
                   "sum": sum, "any": any, "all": all, "bin": bin, "hex": hex, "oct": oct, "chr": chr, "ord": ord, "divmod": divmod, "pow": pow, "int": int, "float": float, "str": str, "len": len, "bool": bool, "min": min, "max": max, "abs": abs, "round": round, "list": list, "tuple": tuple, "bytes": bytes, "set": set, "dict": dict, "bytearray": bytearray}
 
 
@@ -81,6 +93,57 @@ def _has_unknown(v, depth=0):
     if isinstance(v, dict):
         return any(_has_unknown(x, depth + 1) for x in v.values())
     return False
+
+
+class _ChildEnv(dict):
+    """Scope of a comprehension / generator: its own targets are local, every other name is read from (and written to) the
+    enclosing environment, which is shared by reference."""
+
+    def __init__(self, parent):
+        super().__init__()
+        self.parent = parent
+
+    def __missing__(self, k):
+        return self.parent[k]
+
+    def __contains__(self, k):
+        return dict.__contains__(self, k) or k in self.parent
+
+    def get(self, k, default=None):
+        if dict.__contains__(self, k):
+            return dict.__getitem__(self, k)
+        return self.parent.get(k, default)
+
+    def items(self):
+        merged = dict(self.parent.items())
+        merged.update(dict.items(self))
+        return merged.items()
+
+    def keys(self):
+        return dict(self.items()).keys()
+
+    def __iter__(self):
+        return iter(dict(self.items()))
+
+    def __len__(self):
+        return len(dict(self.items()))
+
+
+class LazyGen:
+    """A generator expression: its first iterable is evaluated where the expression stands, everything else when the generator
+    is consumed, in the environment as it is then (the environment is shared by reference) - so a name rebound between the
+    two points is seen with its new value, as in Python."""
+
+    def __init__(self, produce):
+        self._produce, self._it = produce, None
+
+    def __iter__(self):
+        if self._it is None:
+            self._it = self._produce()
+        return self._it
+
+    def __next__(self):
+        return next(iter(self))
 
 
 class LocalFunc:
@@ -357,6 +420,18 @@ class Interp:
             recv = self.ev(v, env, depth)
         except _Unknown:
             return UNKNOWN
+        if isinstance(recv, ClassRef):
+            # a class held in a witness attribute (cls.len_type.encode(n)): elementary codecs directly, other class / static
+            # methods through the ordinary class-method path with the receiver bound to a temporary name
+            if f.attr in ("encode", "decode") and len(e.args) == 1 and not e.keywords:
+                arg = self.ev(e.args[0], env, depth)
+                r_ = codec_apply(self.ctx, recv.ci, f.attr, [arg])
+                if r_ is not UNKNOWN:
+                    return r_
+            e2 = ast.copy_location(ast.Call(func=ast.copy_location(ast.Attribute(value=ast.copy_location(ast.Name(id="__recv", ctx=ast.Load()), v), attr=f.attr, ctx=ast.Load()), f), args=e.args, keywords=e.keywords), e)
+            env2 = dict(env)
+            env2["__recv"] = recv
+            return self._classmethod_call(e2, env2, depth)
         if not (isinstance(recv, Obj) and "_ci" in recv.__dict__):
             return UNKNOWN
         if f.attr in recv.__dict__:
@@ -593,6 +668,33 @@ class Interp:
                     st_ = self.ev(e.slice.step, env, depth) if e.slice.step is not None else None
                     return base[lo:hi:st_]
                 return base[self.ev(e.slice, env, depth)]
+        if isinstance(e, ast.GeneratorExp):
+            g0 = e.generators[0]
+            first = self.ev(g0.iter, env, depth)
+            if isinstance(first, (dict, set, frozenset, type({}.items()), type({}.keys()), type({}.values()), LazyGen)):
+                first = list(first)
+            if not isinstance(first, (list, tuple, str, bytes, range)) or len(first) > 4096:
+                raise _Unknown("generator over a non-constant sequence")
+
+            def produce(first=first):
+                def rec(gens, env_, seq0):
+                    if not gens:
+                        yield self.ev(e.elt, env_, depth)
+                        return
+                    g_ = gens[0]
+                    seq = seq0 if seq0 is not None else self.ev(g_.iter, env_, depth)
+                    if isinstance(seq, (dict, set, frozenset, type({}.items()), type({}.keys()), type({}.values()), LazyGen)):
+                        seq = list(seq)
+                    for item in seq:
+                        # the generator's own targets live in a child scope; everything else is read from the shared environment
+                        env2 = _ChildEnv(env_)
+                        self.store(g_.target, item, env2, depth)
+                        if all(self.ev(c_, env2, depth) for c_ in g_.ifs):
+                            yield from rec(gens[1:], env2, None)
+
+                return rec(list(e.generators), env, first)
+
+            return LazyGen(produce)
         if isinstance(e, (ast.ListComp, ast.GeneratorExp, ast.SetComp, ast.DictComp)):
             out = []
 
@@ -605,7 +707,7 @@ class Interp:
                     return
                 g_ = gens[0]
                 seq = self.ev(g_.iter, env_, depth)
-                if isinstance(seq, (dict, set, frozenset, type({}.items()), type({}.keys()), type({}.values()))):
+                if isinstance(seq, (dict, set, frozenset, type({}.items()), type({}.keys()), type({}.values()), LazyGen)):
                     seq = list(seq)
                 if not isinstance(seq, (list, tuple, str, bytes, range)) or len(seq) > 4096:
                     raise _Unknown("comprehension over a non-constant sequence")
@@ -644,7 +746,7 @@ class Interp:
                     return any(isinstance(v_, kinds[n_]) for n_ in names)
         if isinstance(e, ast.Call) and isinstance(e.func, ast.Name) and e.func.id in _PURE_BUILTINS and e.func.id not in env and not e.keywords:
             args = [self.ev(a, env, depth) for a in e.args]
-            if all(isinstance(a, (int, float, str, bytes, bytearray, bool, list, tuple, dict, range, set, frozenset, type(None))) for a in args):
+            if all(isinstance(a, (int, float, str, bytes, bytearray, bool, list, tuple, dict, range, set, frozenset, type(None), LazyGen)) for a in args):
                 return _PURE_BUILTINS[e.func.id](*args)
         if isinstance(e, ast.Call) and ast.unparse(e.func) in ("pack", "unpack", "unpack_from", "calcsize", "struct.pack", "struct.unpack", "struct.unpack_from", "struct.calcsize") and not e.keywords:
             import struct as _struct
@@ -809,7 +911,7 @@ class Interp:
                 self.block(st.body if t else st.orelse, env, depth)
             elif isinstance(st, ast.For):
                 seq = self.ev(st.iter, env, depth)
-                if isinstance(seq, (dict, set, frozenset, type({}.items()), type({}.keys()), type({}.values()))):
+                if isinstance(seq, (dict, set, frozenset, type({}.items()), type({}.keys()), type({}.values()), LazyGen)):
                     seq = list(seq)
                 if not isinstance(seq, (list, tuple, str, bytes, range)) or len(seq) > 256:
                     raise _Unknown("loop over a non-constant or long sequence")
